@@ -1,9 +1,9 @@
 (** C08, sender honesty: over ALL sequences of socket operations, every data packet the socket emits carries exactly the bytes the
     application wrote, at the sequence position of those bytes (first transmissions, retransmissions, MTU-driven re-segmentations).
     The model (PtcpModel.v) is untouched; this file only states and proves an invariant about it. *)
-From Coq Require Import ZArith List Bool Lia.
+From Coq Require Import ZArith List Bool Lia ZifyBool.
 From RecordUpdate Require Import RecordSet.
-From Nice Require Import Base.Bytes Ptcp.PtcpModel Ptcp.PtcpProofs Ptcp.PtcpHoare.
+From Nice Require Import Base.Bytes Ptcp.PtcpModel Ptcp.PtcpProofs Ptcp.PtcpHoare Ptcp.SockOps.
 Import ListNotations.
 Import RecordSetNotations.
 Local Open Scope Z_scope.
@@ -124,10 +124,10 @@ Ltac nopkt_triv :=
 Ltac same_triv :=
   unfold same_snd; cbn;
   repeat split; try reflexivity; try (intros; assumption); try apply st_ok_refl; try discriminate; auto.
-Ltac fr_triv := split; [same_triv|nopkt_triv].
+Ltac fr_triv := solve [split; [same_triv|nopkt_triv]].
 Ltac fr_chain :=
   repeat match goal with H : fr ?a ?b ?c ?d |- fr ?a ?b _ _ => eapply fr_trans; [exact H|]; clear H end;
-  try apply fr_refl; try fr_triv.
+  first [ apply fr_refl | fr_triv | eapply fr_trans; [|eassumption]; fr_triv | idtac ].
 
 (* set_state towards anything but LISTEN / SYN_SENT *)
 Lemma transition_st_ok o n : transition_ok o n = true -> n <> LISTEN -> n <> SYN_SENT -> st_ok o n.
@@ -146,4 +146,1021 @@ Lemma adjustMTU_frames : frames adjustMTU.
 Proof.
   intros s ev. unfold adjustMTU. wp_prims. split; [|nopkt_triv]. unfold same_snd; cbn.
   repeat split; try reflexivity; try apply st_ok_refl. intros _. unfold w32, M32. apply Z.mod_pos_bound. lia.
+Qed.
+
+Ltac fr_call L := eapply wp_bind_fr; [apply L; try discriminate|intros ? ? ? ?].
+Ltac fr_last L := eapply wp_conseq; [apply L; try discriminate|cbv beta; intros ? ? ? ?; fr_chain].
+
+Lemma set_state_established_frames : frames set_state_established.
+Proof.
+  intros s ev. unfold set_state_established.
+  fr_call set_state_frames. fr_call adjustMTU_frames. wp_prims. fr_chain.
+Qed.
+
+Lemma set_state_closed_frames err : frames (set_state_closed err).
+Proof.
+  intros s ev. unfold set_state_closed. fr_call set_state_frames.
+  apply wp_when; intros _; [wp_prims|]; fr_chain.
+Qed.
+
+Lemma closedown_states_frames : frames closedown_states.
+Proof.
+  intros s ev. unfold closedown_states. wp_prims.
+  destruct (state s); wp_prims; try apply fr_refl;
+  repeat (fr_call set_state_frames); fr_last set_state_frames.
+Qed.
+
+Lemma closedown_remote_frames err : frames (closedown_remote err).
+Proof. intros s ev. unfold closedown_remote. fr_call closedown_states_frames. fr_last set_state_closed_frames. Qed.
+
+Lemma resize_receive_buffer_frames n : frames (resize_receive_buffer n).
+Proof.
+  intros s ev. unfold resize_receive_buffer. wp_prims. destruct (rbuf_len s =? n); [wp_prims; apply fr_refl|].
+  match goal with |- context [let '(sz, sf) := ?e in _] => destruct e as [sz sf] end.
+  wp_prims. fr_triv.
+Qed.
+
+Lemma apply_opts_frames fuel : forall d, frames (apply_opts fuel d).
+Proof.
+  induction fuel as [|f IH]; intros d s ev; cbn [apply_opts]; [wp_prims; apply fr_refl|].
+  destruct d as [|kind d1]; [wp_prims; apply fr_refl|].
+  destruct (kind =? 0); [wp_prims; apply fr_refl|]. destruct (kind =? 1); [apply IH|].
+  destruct d1 as [|ol d2]; [wp_prims; apply fr_refl|]. destruct (len d2 <? ol); [wp_prims; apply fr_refl|].
+  apply wp_bind_when; intros _; [wp_prims|]; (apply wp_bind_when; intros _; [wp_prims|]);
+    (eapply wp_conseq; [apply IH|cbv beta; intros ? ? ? ?; fr_chain]).
+Qed.
+
+Lemma parse_options_frames d : frames (parse_options d).
+Proof.
+  intros s ev. unfold parse_options. fr_call apply_opts_frames.
+  destruct (negb a); [wp_prims; fr_chain|].
+  destruct (parse_opts _ _ _ _ _) as [[[hw hf] sc]|]; [|wp_prims; fr_chain].
+  wp_prims.
+  destruct (negb hw && (rwnd_scale s1 >? 0)).
+  - apply wp_bind_assoc. fr_call resize_receive_buffer_frames. wp_prims.
+    apply wp_when; intros _; [wp_prims|]; fr_chain.
+  - wp_prims. apply wp_when; intros _; [wp_prims|]; fr_chain.
+Qed.
+
+Lemma recover_rlist_frames fuel : forall sf, frames (recover_rlist fuel sf).
+Proof.
+  induction fuel as [|f IH]; intros sf s ev; cbn [recover_rlist]; [wp_prims; apply fr_refl|].
+  wp_prims. destruct (rlist s) as [|r rl]; [wp_prims; apply fr_refl|].
+  destruct (SMALLER_OR_EQUAL _ _); [|wp_prims; apply fr_refl].
+  destruct (LARGER _ _).
+  - destruct (rb_commit _ _); [|apply wp_fault]. wp_prims.
+    eapply wp_conseq; [apply IH|cbv beta; intros ? ? ? ?]. eapply fr_trans; [|eassumption]. fr_triv.
+  - wp_prims. eapply wp_conseq; [apply IH|cbv beta; intros ? ? ? ?]. eapply fr_trans; [|eassumption]. fr_triv.
+Qed.
+
+(** ---- the invariant ---- *)
+(* what a packet must look like: [C] = the control bytes (connect message) queued before the application's bytes [W] *)
+Definition pkt_ok (C W : bytes) (p : bytes) : Prop :=
+  pkt_payload p <> [] ->
+  0 <= pkt_seq p /\ pkt_seq p + len (pkt_payload p) <= len (C ++ W) /\
+  pkt_payload p = sub (C ++ W) (pkt_seq p) (len (pkt_payload p)) /\
+  (if pkt_ctl p then pkt_seq p + len (pkt_payload p) <= len C else len C <= pkt_seq p).
+Definition ev_ok (C W : bytes) (ev : list event) : Prop := forall p, In (EvPacket p) ev -> pkt_ok C W p.
+
+Definition normal (C W : bytes) (una : Z) (sb : bytes) (l : list sseg) : Prop :=
+  exists base, 0 <= base <= len (C ++ W) /\ sb = skipn (Z.to_nat base) (C ++ W) /\ w32 una = base /\
+               tiles (len C) base l (len (C ++ W)).
+(* after the peer acknowledged our FIN: nothing is buffered any more and nothing can be queued again *)
+Definition drained (st : tstate) (sb : bytes) (l : list sseg) : Prop :=
+  has_sent_fin st = true /\ sb = [] /\ Forall (fun g => ss_len g = 0) l.
+Definition mode (C W : bytes) (s : sock) : Prop :=
+  normal C W (snd_una s) (sbuf s) (slist s) \/ drained (state s) (sbuf s) (slist s).
+
+Record sinv (C W : bytes) (s : sock) (ev : list event) : Prop := {
+  si_nowrap : len C + len W < NW;
+  si_cl : len C <= 7;
+  si_n : sbuf_n s = len (sbuf s);
+  si_mss : 0 <= mss s;
+  si_mode : mode C W s;
+  si_listen : state s = LISTEN -> C = [] /\ W = [];
+  si_ev : ev_ok C W ev }.
+
+Lemma ev_ok_nopkt C W ev ev' : ev_ok C W ev -> nopkt ev ev' -> ev_ok C W ev'.
+Proof. unfold ev_ok, nopkt. auto. Qed.
+
+Lemma sinv_frame C W s ev s' ev' : sinv C W s ev -> fr s ev s' ev' -> sinv C W s' ev'.
+Proof.
+  intros [H1 H2 H3 H4 H5 H6 H7] ((E1 & E2 & E3 & E4 & E5 & E6 & E7) & N).
+  constructor; try assumption; try congruence; auto.
+  - unfold mode in *. rewrite E1, E2, E3. destruct H5 as [H5|(D1 & D2 & D3)]; [left; exact H5|right]. split; [auto|split; assumption].
+  - eapply ev_ok_nopkt; eauto.
+Qed.
+
+(** ---- tiling lemmas by position in the list ---- *)
+Lemma tiles_nth cl l : forall pos e i g, tiles cl pos l e -> nth_error l i = Some g ->
+  exists p, seg_ok cl p g /\ pos <= p /\ p + ss_len g <= e.
+Proof.
+  induction l as [|x l IH]; intros pos e i g H N; [destruct i; discriminate|].
+  cbn [tiles] in H. destruct H as (Hx & H). destruct i as [|i]; cbn [nth_error] in N.
+  - injection N as <-. exists pos. split; [exact Hx|]. apply tiles_le in H. destruct Hx as (_ & Hl & _). lia.
+  - destruct (IH _ _ _ _ H N) as (p & Hp & Hle & Hfit). exists p. destruct Hx as (_ & Hl & _). split; [exact Hp|lia].
+Qed.
+
+Lemma tiles_set_nth cl l : forall pos e i g g', tiles cl pos l e -> nth_error l i = Some g ->
+  ss_len g' = ss_len g -> (forall p, seg_ok cl p g -> seg_ok cl p g') -> tiles cl pos (set_nth_seg l i g') e.
+Proof.
+  induction l as [|x l IH]; intros pos e i g g' H N L S; [destruct i; discriminate|].
+  cbn [tiles] in H. destruct H as (Hx & H). destruct i as [|i]; cbn [nth_error] in N; cbn [set_nth_seg tiles].
+  - injection N as <-. split; [apply S; exact Hx|]. rewrite L. exact H.
+  - split; [exact Hx|]. eapply IH; eauto.
+Qed.
+
+Lemma tiles_split cl l : forall pos e i g k x, tiles cl pos l e -> nth_error l i = Some g ->
+  0 <= k <= ss_len g -> 0 <= pos -> e < M32 ->
+  tiles cl pos (insert_after (set_nth_seg l i (g <| ss_len := k |>)) i
+                  {| ss_seq := w32 (ss_seq g + k); ss_len := w32 (ss_len g - k); ss_xmit := x; ss_flags := ss_flags g |}) e.
+Proof.
+  induction l as [|y l IH]; intros pos e i g k x H N K P E; [destruct i; discriminate|].
+  cbn [tiles] in H. destruct H as (Hy & H). destruct i as [|i]; cbn [nth_error] in N; cbn [set_nth_seg insert_after tiles].
+  - injection N as <-. pose proof (tiles_le _ _ _ _ H) as Hle.
+    assert (Hl : 0 <= ss_len y) by (destruct Hy as (_ & Hl & _); exact Hl).
+    destruct (seg_ok_split cl pos y k x Hy K) as (S1 & S2); try lia.
+    split; [exact S1|]. split; [exact S2|]. cbn [ss_len set].
+    assert (W2 : w32 (ss_len y - k) = ss_len y - k) by (unfold w32, M32 in *; apply Z.mod_small; lia).
+    rewrite W2. replace (pos + k + (ss_len y - k)) with (pos + ss_len y) by lia. exact H.
+  - split; [exact Hy|]. apply IH; auto. destruct Hy as (_ & Hl & _). lia.
+Qed.
+
+Lemma nth_error_set_nth l : forall i (x g : sseg), nth_error l i = Some g -> nth_error (set_nth_seg l i x) i = Some x.
+Proof. induction l as [|y l IH]; intros [|i] x g N; try discriminate; cbn; [reflexivity|]. eapply IH; eauto. Qed.
+Lemma nth_error_insert_after l : forall i (x y : sseg), nth_error l i = Some x -> nth_error (insert_after l i y) i = Some x.
+Proof. induction l as [|z l IH]; intros [|i] x y N; try discriminate; cbn in *; [exact N|]. apply IH; exact N. Qed.
+
+Lemma Forall_set_nth (P : sseg -> Prop) l : forall i x, Forall P l -> P x -> Forall P (set_nth_seg l i x).
+Proof. induction l as [|y l IH]; intros i x H Hx; [destruct i; constructor|]. inversion H; subst. destruct i; cbn; constructor; auto. Qed.
+Lemma Forall_insert_after (P : sseg -> Prop) l : forall i x, Forall P l -> P x -> Forall P (insert_after l i x).
+Proof.
+  induction l as [|y l IH]; intros i x H Hx; [destruct i; repeat constructor; exact Hx|].
+  inversion H; subst. destruct i; cbn; repeat constructor; auto.
+Qed.
+Lemma Forall_nth_error (P : sseg -> Prop) l i g : Forall P l -> nth_error l i = Some g -> P g.
+Proof. intros H N. rewrite Forall_forall in H. apply H. eapply nth_error_In; eauto. Qed.
+
+(** ---- big-endian words ---- *)
+Lemma be32_roundtrip v : 0 <= v < M32 ->
+  be32_of ((v / 16777216) mod 256) ((v / 65536) mod 256) ((v / 256) mod 256) (v mod 256) = v.
+Proof. unfold be32_of, M32. intros H. lia. Qed.
+
+(** ---- packet ---- *)
+Definition emitted (s : sock) (seq flags offset ln : Z) (ev ev' : list event) : Prop :=
+  ev' = ev \/ exists p, ev' = ev ++ [EvPacket p] /\ pkt_payload p = sub (sbuf s) offset ln /\ pkt_seq p = w32 seq /\
+                        pkt_flags p = flags mod 256.
+
+Lemma packet_spec seq flags offset ln now s ev :
+  wp (packet seq flags offset ln now) s ev (fun _ s' ev' =>
+    same_snd s s' /\ state s' = state s /\ mss s' = mss s /\ emitted s seq flags offset ln ev ev').
+Proof.
+  unfold packet. wp_prims. cbn [sbuf_n sbuf wr_limit set].
+  destruct (24 + ln >? wr_limit s) eqn:E.
+  - cbn [when]. wp_prims. destruct (ln =? 0); wp_prims; (split; [same_triv|]); cbn; repeat split; left; reflexivity.
+  - cbn [when]. wp_prims. split; [destruct (ln >? 0); same_triv|].
+    split; [destruct (ln >? 0); reflexivity|]. split; [destruct (ln >? 0); reflexivity|].
+    right. eexists. split; [reflexivity|].
+    unfold pkt_payload, pkt_seq, pkt_flags, be32b, be32_bytes, setw. cbn [app skipn nth].
+    split; [reflexivity|]. split; [|reflexivity].
+    apply be32_roundtrip. unfold w32, M32. apply Z.mod_pos_bound. lia.
+Qed.
+
+Lemma len_sub_exact (l : bytes) off n : 0 <= off -> 0 <= n -> off + n <= len l -> len (sub l off n) = n.
+Proof. intros H1 H2 H3. unfold sub, len in *. rewrite firstn_length, skipn_length. lia. Qed.
+
+Lemma skipn_skipn' {A} (l : list A) : forall a b, skipn a (skipn b l) = skipn (b + a) l.
+Proof.
+  induction l as [|x l IH]; intros a b; [rewrite !skipn_nil; reflexivity|].
+  destruct b as [|b]; [reflexivity|]. cbn [skipn plus]. apply IH.
+Qed.
+
+Lemma sub_skipn (l : bytes) b off n : 0 <= b -> 0 <= off -> sub (skipn (Z.to_nat b) l) off n = sub l (b + off) n.
+Proof. intros H1 H2. unfold sub. rewrite skipn_skipn'. f_equal. f_equal. lia. Qed.
+
+Lemma sub_nil off n : sub [] off n = [].
+Proof. unfold sub. rewrite skipn_nil. apply firstn_nil. Qed.
+
+Lemma has_flag_ctl f : flag_ok f -> has_flag (f mod 256) FLAG_CTL = if f =? FLAG_CTL then true else false.
+Proof. intros [ -> | [ -> | [ -> | -> ] ] ]; reflexivity. Qed.
+
+(* a (re)transmission of [n] bytes of segment [g] in normal mode, or of anything once drained, is an acceptable packet *)
+Lemma emitted_ok C W s ev ev' g p0 n :
+  len C + len W < NW -> ev_ok C W ev ->
+  (drained (state s) (sbuf s) (slist s) \/
+   (exists base, 0 <= base <= len (C ++ W) /\ sbuf s = skipn (Z.to_nat base) (C ++ W) /\ w32 (snd_una s) = base /\
+                 seg_ok (len C) p0 g /\ base <= p0 /\ p0 + ss_len g <= len (C ++ W) /\ 0 <= n <= ss_len g)) ->
+  emitted s (ss_seq g) (ss_flags g) (w32 (ss_seq g - snd_una s)) n ev ev' -> ev_ok C W ev'.
+Proof.
+  intros NWr Hev Hm [->|(p & -> & Hpay & Hseq & Hfl)]; [exact Hev|].
+  intros q Hin. apply in_app_or in Hin. destruct Hin as [Hin|[Hin|[]]]; [apply Hev; exact Hin|]. injection Hin as <-.
+  intros Hne. destruct Hm as [(_ & Hsb & _)|(base & Hb & Hsb & Hu & Hg & Hbp & Hfit & Hn)].
+  - rewrite Hsb, sub_nil in Hpay. contradiction.
+  - destruct Hg as (Hs & Hl & Hf & Hc & Hd). rewrite len_app in *.
+    assert (Hoff : w32 (ss_seq g - snd_una s) = p0 - base).
+    { rewrite Hs. unfold w32, M32, NW in *. lia. }
+    rewrite Hoff, Hsb, sub_skipn in Hpay by lia. replace (base + (p0 - base)) with p0 in Hpay by lia.
+    assert (Hq : pkt_seq p = p0) by (rewrite Hseq, Hs; unfold w32, M32, NW in *; apply Z.mod_small; lia).
+    assert (Hlen : len (pkt_payload p) = n) by (rewrite Hpay; apply len_sub_exact; rewrite ?len_app; lia).
+    rewrite Hq, Hlen. split; [lia|]. split; [lia|]. split; [exact Hpay|].
+    unfold pkt_ctl. rewrite Hfl, has_flag_ctl by exact Hf.
+    assert (0 < n). { destruct (Z.eq_dec n 0) as [->|]; [|lia]. rewrite Hpay in Hne. unfold sub in Hne. cbn in Hne. contradiction. }
+    destruct (ss_flags g =? FLAG_CTL) eqn:Ec.
+    + assert (ss_flags g = FLAG_CTL) by lia. specialize (Hc H0). lia.
+    + assert (ss_flags g <> FLAG_CTL) by lia. specialize (Hd H0). lia.
+Qed.
+
+Lemma sinv_same C W s ev s' ev' : sinv C W s ev -> same_snd s s' -> ev_ok C W ev' -> sinv C W s' ev'.
+Proof.
+  intros [H1 H2 H3 H4 H5 H6 H7] (E1 & E2 & E3 & E4 & E5 & E6 & E7) N.
+  constructor; try assumption; try congruence; auto.
+  - unfold mode in *. rewrite E1, E2, E3. destruct H5 as [H5|(D1 & D2 & D3)]; [left; exact H5|right]. split; [auto|split; assumption].
+Qed.
+
+(* the i-th segment may be (re)transmitted up to its length *)
+Lemma sinv_emit C W s ev ev' i g n :
+  sinv C W s ev -> nth_error (slist s) i = Some g -> 0 <= n <= ss_len g ->
+  emitted s (ss_seq g) (ss_flags g) (w32 (ss_seq g - snd_una s)) n ev ev' -> ev_ok C W ev'.
+Proof.
+  intros HI N Hn He.
+  destruct (si_mode _ _ _ _ HI) as [(base & Hb & Hsb & Hu & Ht)|D].
+  - destruct (tiles_nth _ _ _ _ _ _ Ht N) as (p0 & Hg & Hle & Hfit).
+    eapply (emitted_ok C W s ev ev' g p0 n); [apply HI|apply HI| |exact He]. right.
+    exists base. split; [exact Hb|]. split; [exact Hsb|]. split; [exact Hu|]. split; [exact Hg|]. lia.
+  - eapply (emitted_ok C W s ev ev' g 0 n); [apply HI|apply HI| |exact He]. left; exact D.
+Qed.
+
+Lemma shrink_mss_spec fuel : forall s nT, 0 <= mss s ->
+  let '(s', o) := shrink_mss fuel s nT in
+  same_snd s s' /\ state s' = state s /\ 0 <= mss s' /\ match o with Some m => 0 <= m < nT | None => True end.
+Proof.
+  induction fuel as [|f IH]; intros s nT Hm; cbn [shrink_mss].
+  - split; [apply same_snd_refl|auto].
+  - destruct (nthz PACKET_MAXIMUMS (msslevel s + 1) =? 0); [split; [apply same_snd_refl|auto]|].
+    set (m := w32 (nthz PACKET_MAXIMUMS (msslevel s + 1) - PACKET_OVERHEAD)).
+    assert (Hm0 : 0 <= m) by (unfold m, w32, M32; apply Z.mod_pos_bound; lia).
+    set (s1 := s <| msslevel := msslevel s + 1 |> <| mss := m |> <| cwnd := w32 (2 * m) |>).
+    assert (S1 : same_snd s s1) by (unfold s1; same_triv).
+    destruct (m <? nT) eqn:E.
+    + split; [exact S1|]. split; [reflexivity|]. split; [exact Hm0|lia].
+    + specialize (IH s1 nT Hm0). destruct (shrink_mss f s1 nT) as [s' o]. destruct IH as (A & B & D & F).
+      split; [eapply same_snd_trans; eauto|]. split; [rewrite B; reflexivity|]. split; assumption.
+Qed.
+
+Lemma transmit_loop_spec C W fuel : forall i nT now s ev g,
+  sinv C W s ev -> nth_error (slist s) i = Some g -> 0 <= nT <= ss_len g ->
+  wp (transmit_loop fuel i nT now) s ev (fun r s' ev' =>
+    sinv C W s' ev' /\ same_snd s s' /\ state s' = state s /\ 0 <= snd r <= nT).
+Proof.
+  induction fuel as [|f IH]; intros i nT now s ev g HI N Hn; cbn [transmit_loop]; [apply wp_fault|].
+  wp_prims. rewrite N. wp_prims.
+  eapply wp_bind_spec; [apply packet_spec|]. cbv beta. intros w s1 ev1 (S1 & St1 & M1 & Em).
+  assert (HI1 : sinv C W s1 ev1) by (eapply sinv_same; [exact HI|exact S1|eapply sinv_emit; eauto]).
+  destruct w.
+  - wp_prims. cbn [snd]. split; [exact HI1|]. split; [exact S1|]. split; [exact St1|lia].
+  - wp_prims.
+    pose proof (shrink_mss_spec 12 s1 nT (si_mss _ _ _ _ HI1)) as Hsh.
+    destruct (shrink_mss 12 s1 nT) as [s2 o]. destruct Hsh as (S2 & St2 & M2 & Ho).
+    assert (HI2 : sinv C W s2 ev1).
+    { eapply sinv_same; [exact HI1|exact S2|apply HI1]. }
+    assert (S12 : same_snd s s2) by (eapply same_snd_trans; eauto).
+    destruct o as [m|].
+    + wp_prims. eapply wp_conseq.
+      * apply (IH i m now s2 ev1 g HI2). { destruct S12 as (E & _). rewrite E. exact N. } lia.
+      * cbv beta. intros r s' ev' (A & B & D & F).
+        split; [exact A|]. split; [eapply same_snd_trans; eauto|]. split; [congruence|lia].
+    + wp_prims. cbn [snd]. split; [exact HI2|]. split; [exact S12|]. split; [congruence|lia].
+  - wp_prims. cbn [snd]. split; [exact HI1|]. split; [exact S1|]. split; [exact St1|lia].
+Qed.
+
+(** ---- list surgery keeps the mode ---- *)
+Definition mode_l (C W : bytes) (st : tstate) (una : Z) (sb : bytes) (l : list sseg) : Prop :=
+  normal C W una sb l \/ drained st sb l.
+
+Lemma mode_l_split C W st una sb l i g k x :
+  len C + len W < NW -> mode_l C W st una sb l -> nth_error l i = Some g -> 0 <= k <= ss_len g ->
+  mode_l C W st una sb (insert_after (set_nth_seg l i (g <| ss_len := k |>)) i
+                          {| ss_seq := w32 (ss_seq g + k); ss_len := w32 (ss_len g - k); ss_xmit := x; ss_flags := ss_flags g |}).
+Proof.
+  intros NWr [(base & Hb & Hsb & Hu & Ht)|(D1 & D2 & D3)] N K.
+  - left. exists base. repeat split; try assumption; try lia.
+    apply tiles_split; auto; try lia. rewrite len_app. unfold NW, M32 in *. lia.
+  - right. split; [exact D1|]. split; [exact D2|].
+    pose proof (Forall_nth_error _ _ _ _ D3 N) as Hz. cbv beta in Hz.
+    apply Forall_insert_after; [apply Forall_set_nth; [exact D3|cbn; lia]|].
+    cbn [ss_len]. replace k with 0 by lia. rewrite Hz. reflexivity.
+Qed.
+
+Lemma mode_l_xmit C W st una sb l i g x :
+  mode_l C W st una sb l -> nth_error l i = Some g ->
+  mode_l C W st una sb (set_nth_seg l i (g <| ss_xmit := x |>)).
+Proof.
+  intros [(base & Hb & Hsb & Hu & Ht)|(D1 & D2 & D3)] N.
+  - left. exists base. repeat split; try assumption; try lia.
+    eapply tiles_set_nth; eauto.
+  - right. split; [exact D1|]. split; [exact D2|].
+    apply Forall_set_nth; [exact D3|]. cbn [ss_len set]. exact (Forall_nth_error _ _ _ _ D3 N).
+Qed.
+
+Lemma set_nth_nonnil l i (x : sseg) : l <> [] -> set_nth_seg l i x <> [].
+Proof. destruct l; [congruence|]. destruct i; cbn; discriminate. Qed.
+Lemma insert_after_nonnil l i (x : sseg) : insert_after l i x <> [].
+Proof. destruct l; destruct i; cbn; discriminate. Qed.
+
+(** ---- transmit ---- *)
+Lemma transmit_spec C W i now s ev :
+  sinv C W s ev -> wp (transmit i now) s ev (fun _ s' ev' => sinv C W s' ev' /\ state s' = state s).
+Proof.
+  intros HI. unfold transmit. wp_prims. destruct (nth_error (slist s) i) as [g|] eqn:N; [|apply wp_fault].
+  destruct (ss_xmit g >=? _); [wp_prims; auto|].
+  assert (Hg : 0 <= ss_len g).
+  { destruct (si_mode _ _ _ _ HI) as [(base & _ & _ & _ & Ht)|(_ & _ & D)].
+    - destruct (tiles_nth _ _ _ _ _ _ Ht N) as (p0 & (_ & Hl & _) & _). exact Hl.
+    - pose proof (Forall_nth_error _ _ _ _ D N) as Hz. cbv beta in Hz. lia. }
+  pose proof (si_mss _ _ _ _ HI) as Hmss.
+  eapply wp_bind_spec; [apply (transmit_loop_spec C W 14 i _ now s ev g HI N); lia|].
+  cbv beta. intros [status nT] s1 ev1 (HI1 & S1 & St1 & HnT). cbn [snd] in HnT.
+  destruct (negb (status =? 0)); [wp_prims; auto|]. wp_prims.
+  assert (N1 : nth_error (slist s1) i = Some g) by (destruct S1 as (E & _); rewrite E; exact N).
+  set (sl := if nT <? ss_len g then insert_after (set_nth_seg (slist s1) i (g <| ss_len := nT |>)) i
+         {| ss_seq := w32 (ss_seq g + nT); ss_len := w32 (ss_len g - nT); ss_xmit := ss_xmit g; ss_flags := ss_flags g |}
+       else slist s1).
+  set (g1 := if nT <? ss_len g then g <| ss_len := nT |> else g).
+  match goal with |- wp (bind ?m _) _ _ _ => set (chk := m) end.
+  assert (Hchk : forall Q : unit -> sock -> list event -> Prop, Q tt s1 ev1 -> wp chk s1 ev1 Q).
+  { intros Q HQ. unfold chk. destruct (ss_xmit g1 =? 0); wp_prims; exact HQ. }
+  eapply wp_bind_spec; [apply (Hchk (fun _ s' ev' => s' = s1 /\ ev' = ev1)); split; reflexivity|]. cbv beta. intros _ s2 ev2 (-> & ->).
+  wp_prims. split; [|cbn; exact St1].
+  assert (Hsl : mode_l C W (state s1) (snd_una s1) (sbuf s1) sl /\ nth_error sl i = Some g1).
+  { unfold sl, g1. destruct (nT <? ss_len g) eqn:E.
+    - split; [apply mode_l_split; auto; [apply HI1|apply HI1|lia]|].
+      apply nth_error_insert_after. eapply nth_error_set_nth; eauto.
+    - split; [apply HI1|exact N1]. }
+  destruct Hsl as (Hm & Hn1).
+  destruct HI1 as [H1 H2 H3 H4 H5 H6 H7]. constructor; cbn; try assumption.
+  apply mode_l_xmit; assumption.
+Qed.
+
+(** ---- attempt_send ---- *)
+Lemma sinv_ack C W s ev ev' seq fl off : sinv C W s ev -> emitted s seq fl off 0 ev ev' -> ev_ok C W ev'.
+Proof.
+  intros HI [->|(p & -> & Hpay & _)]; [apply HI|].
+  intros q Hin. apply in_app_or in Hin. destruct Hin as [Hin|[Hin|[]]]; [apply HI; exact Hin|]. injection Hin as <-.
+  intros Hne. exfalso. apply Hne. rewrite Hpay. unfold sub. reflexivity.
+Qed.
+
+Lemma ack_packet_spec C W seq now s ev :
+  sinv C W s ev -> wp (packet seq 0 0 0 now) s ev (fun _ s' ev' => sinv C W s' ev' /\ state s' = state s).
+Proof.
+  intros HI. eapply wp_conseq; [apply packet_spec|]. cbv beta. intros w s1 ev1 (S1 & St1 & M1 & Em).
+  split; [|exact St1]. eapply sinv_same; [exact HI|exact S1|eapply sinv_ack; eauto].
+Qed.
+
+Lemma attempt_send_loop_spec C W fuel : forall sflags now s ev,
+  sinv C W s ev -> wp (attempt_send_loop fuel sflags now) s ev (fun _ s' ev' => sinv C W s' ev').
+Proof.
+  induction fuel as [|f IH]; intros sflags now s ev HI; cbn [attempt_send_loop]; [apply wp_fault|].
+  wp_prims.
+  destruct (sf_eqb sflags sfDuplicateAck).
+  { eapply wp_bind_spec; [apply ack_packet_spec; exact HI|]. cbv beta. intros _ s1 ev1 (HI1 & _). apply IH; exact HI1. }
+  match goal with |- context [if ?a >? ?u then (if ?c then 0 else ?u) else ?a] =>
+    set (nAvailable := if a >? u then (if c then 0 else u) else a) in *;
+    assert (HnA : 0 <= nAvailable) by
+      (pose proof (si_mss _ _ _ _ HI); subst nAvailable;
+       repeat match goal with |- context [if ?b then _ else _] => destruct b eqn:? end; lia)
+  end.
+  clearbody nAvailable.
+  destruct ((nAvailable =? 0) && negb (sf_eqb sflags sfFin || sf_eqb sflags sfRst)).
+  { destruct (sf_eqb sflags sfNone); [wp_prims; exact HI|].
+    destruct (sf_eqb sflags sfImmediateAck || negb (t_ack s =? 0)).
+    - eapply wp_bind_spec; [apply ack_packet_spec; exact HI|]. cbv beta. intros _ s1 ev1 (HI1 & _). wp_prims. exact HI1.
+    - wp_prims. eapply sinv_frame; [exact HI|]. fr_triv. }
+  destruct (use_nagling s && _ && _ && _); [wp_prims; exact HI|].
+  destruct (first_unsent (slist s) 0) as [i|]; [|wp_prims; exact HI].
+  destruct (nth_error (slist s) i) as [g|] eqn:N; [|apply wp_fault].
+  match goal with |- wp (bind ?m _) _ _ _ => set (spl := m) end.
+  assert (Hspl : wp spl s ev (fun _ s' ev' => sinv C W s' ev')).
+  { unfold spl. destruct ((ss_len g >? nAvailable) && _) eqn:E; [|wp_prims; exact HI]. wp_prims.
+    destruct HI as [H1 H2 H3 H4 H5 H6 H7]. constructor; cbn; try assumption.
+    apply mode_l_split; auto. lia. }
+  eapply wp_bind_spec; [exact Hspl|]. cbv beta. intros _ s1 ev1 HI1.
+  eapply wp_bind_spec; [apply transmit_spec; exact HI1|]. cbv beta. intros st s2 ev2 (HI2 & _).
+  destruct (negb (st =? 0)).
+  - eapply wp_conseq; [apply closedown_remote_frames|]. cbv beta. intros _ s3 ev3 F. eapply sinv_frame; eauto.
+  - apply IH. exact HI2.
+Qed.
+
+Lemma attempt_send_spec C W sflags now s ev :
+  sinv C W s ev -> wp (attempt_send sflags now) s ev (fun _ s' ev' => sinv C W s' ev').
+Proof.
+  intros HI. unfold attempt_send. wp_prims.
+  apply wp_bind_when; intros _; wp_prims.
+  - apply attempt_send_loop_spec. eapply sinv_frame; [exact HI|].
+    fr_triv.
+  - apply attempt_send_loop_spec. exact HI.
+Qed.
+
+(** ---- queue ---- *)
+Definition qsl (l : list sseg) (seq ln flags : Z) : list sseg :=
+  match last_seg l with
+  | Some t => if (ss_flags t =? flags) && (ss_xmit t =? 0)
+              then removelast l ++ [t <| ss_len := w32 (ss_len t + ln) |>]
+              else l ++ [{| ss_seq := seq; ss_len := ln; ss_xmit := 0; ss_flags := flags |}]
+  | None => [{| ss_seq := seq; ss_len := ln; ss_xmit := 0; ss_flags := flags |}]
+  end.
+
+Lemma tiles_qsl cl base l e ln flags :
+  tiles cl base l e -> 0 <= ln -> 0 <= base -> e + ln < M32 -> flag_ok flags ->
+  (flags = FLAG_CTL -> e + ln <= cl) -> (flags <> FLAG_CTL -> 0 < ln -> cl <= e) ->
+  tiles cl base (qsl l e ln flags) (e + ln).
+Proof.
+  intros Ht Hln Hb Hw Hf Hc Hd. unfold qsl.
+  assert (Hnew : tiles cl e [{| ss_seq := e; ss_len := ln; ss_xmit := 0; ss_flags := flags |}] (e + ln)).
+  { cbn [tiles]. split; [|reflexivity]. unfold seg_ok; cbn. repeat split; auto. }
+  destruct (last_seg l) as [t|] eqn:L.
+  - apply last_seg_split in L. rewrite L in Ht. apply tiles_app in Ht. destruct Ht as (m & H1 & H2).
+    cbn [tiles] in H2. destruct H2 as (Hg & He).
+    destruct ((ss_flags t =? flags) && (ss_xmit t =? 0)) eqn:E.
+    + apply tiles_app. exists m. split; [exact H1|]. cbn [tiles]. cbn [ss_len set].
+      pose proof (tiles_le _ _ _ _ H1) as Hle.
+      destruct Hg as (G1 & G2 & G3 & G4 & G5).
+      assert (W1 : w32 (ss_len t + ln) = ss_len t + ln) by (unfold w32, M32 in *; apply Z.mod_small; lia).
+      rewrite W1. split; [|lia]. unfold seg_ok; cbn [ss_seq ss_len ss_flags set].
+      assert (Ef : ss_flags t = flags) by lia. rewrite Ef in *.
+      repeat split; auto; try lia.
+    + rewrite L. rewrite <- app_assoc. apply tiles_app. exists m. split; [exact H1|].
+      change ([t] ++ ?x) with (t :: x). cbn [tiles]. split; [exact Hg|]. rewrite He. exact Hnew.
+  - apply last_seg_none in L. subst l. cbn [tiles] in Ht. subst e. exact Hnew.
+Qed.
+
+Lemma zero_qsl l seq flags : Forall (fun g => ss_len g = 0) l -> Forall (fun g => ss_len g = 0) (qsl l seq 0 flags).
+Proof.
+  intros H. unfold qsl. destruct (last_seg l) as [t|] eqn:L; [|repeat constructor].
+  apply last_seg_split in L. destruct (_ && _).
+  - rewrite L in H. apply Forall_app in H. destruct H as (H1 & H2). apply Forall_app. split; [exact H1|].
+    inversion H2; subst. repeat constructor. cbn. rewrite H3. reflexivity.
+  - apply Forall_app. split; [exact H|repeat constructor].
+Qed.
+
+Lemma tiles_rebase cl cl' l : 0 <= cl' -> tiles cl 0 l 0 -> tiles cl' 0 l 0.
+Proof.
+  intros Hc. induction l as [|g l IH]; cbn [tiles]; [auto|]. intros (Hg & H).
+  pose proof (tiles_le _ _ _ _ H) as Hle. destruct Hg as (G1 & G2 & G3 & G4 & G5).
+  assert (Z0 : ss_len g = 0) by lia. rewrite Z0 in *. split; [|apply IH; exact H].
+  unfold seg_ok. rewrite Z0. repeat split; auto; lia.
+Qed.
+
+Lemma skipn_app_le {A} (l1 l2 : list A) n : (n <= length l1)%nat -> skipn n (l1 ++ l2) = skipn n l1 ++ l2.
+Proof. intros H. rewrite skipn_app. replace (n - length l1)%nat with 0%nat by lia. reflexivity. Qed.
+
+Lemma firstn_len_firstn {A} (l : list A) n : firstn (length (firstn n l)) l = firstn n l.
+Proof. rewrite firstn_length. destruct (Nat.le_ge_cases n (length l)); [rewrite Nat.min_l by lia; reflexivity|].
+  rewrite Nat.min_r by lia. rewrite firstn_all. symmetry. apply firstn_all2. lia. Qed.
+
+Lemma sub_app_l (l d : bytes) q n : 0 <= q -> 0 <= n -> q + n <= len l -> sub (l ++ d) q n = sub l q n.
+Proof.
+  intros H1 H2 H3. unfold sub, len in *. rewrite skipn_app_le by lia. rewrite firstn_app.
+  rewrite skipn_length. replace (Z.to_nat n - (length l - Z.to_nat q))%nat with 0%nat by lia. cbn [firstn]. apply app_nil_r.
+Qed.
+
+Lemma pkt_ok_ext C W d p : pkt_ok C W p -> pkt_ok C (W ++ d) p.
+Proof.
+  intros H Hne. destruct (H Hne) as (H1 & H2 & H3 & H4). rewrite app_assoc.
+  assert (0 <= len (pkt_payload p)) by (unfold len; lia).
+  split; [exact H1|]. split; [rewrite len_app; unfold len at 3; lia|]. split; [|exact H4].
+  rewrite sub_app_l by lia. exact H3.
+Qed.
+
+Lemma queue_result data flags s ev :
+  wp (queue data flags) s ev (fun ln s' ev' => exists d, ev' = ev /\ ln = len d /\ d = firstn (Z.to_nat ln) data /\
+     s' = s <| slist := qsl (slist s) (w32 (snd_una s + sb_buffered s)) ln flags |> <| sbuf := sbuf s ++ d |>
+            <| sbuf_n := sbuf_n s + ln |>).
+Proof.
+  unfold queue. wp_prims.
+  destruct (len data >? sb_remaining s) eqn:E; wp_prims.
+  - exists (firstn (Z.to_nat (sb_remaining s)) data). split; [reflexivity|]. split; [reflexivity|].
+    split; [|reflexivity]. unfold len. rewrite Nat2Z.id. symmetry. apply firstn_len_firstn.
+  - exists data. split; [reflexivity|]. split; [reflexivity|]. split; [|reflexivity].
+    unfold len. rewrite Nat2Z.id. symmetry. apply firstn_all.
+Qed.
+
+Lemma w32_una_plus una base n : w32 una = base -> 0 <= base + n < M32 -> w32 (una + n) = base + n.
+Proof. unfold w32, M32. intros H1 H2. lia. Qed.
+
+(* the application's bytes, a FIN or a RST *)
+Lemma queue_data_spec C W data flags s ev :
+  sinv C W s ev -> flag_ok flags -> flags <> FLAG_CTL ->
+  (data = [] \/ (has_sent_fin (state s) = false /\ state s <> LISTEN)) ->
+  wp (queue data flags) s ev (fun ln s' ev' =>
+    0 <= ln <= len data /\ state s' = state s /\
+    (len C + len W + ln < NW -> sinv C (W ++ firstn (Z.to_nat ln) data) s' ev')).
+Proof.
+  intros HI Hf Hnc Hst. eapply wp_conseq; [apply queue_result|]. cbv beta.
+  intros ln s' ev' (d & -> & Hln & Hd & ->).
+  assert (Hlen : 0 <= ln <= len data).
+  { rewrite Hln, Hd. unfold len. rewrite firstn_length. lia. }
+  split; [exact Hlen|]. split; [reflexivity|]. intros NWr. rewrite <- Hd.
+  destruct HI as [H1 H2 H3 H4 H5 H6 H7]. unfold sb_buffered. constructor; cbn; try assumption.
+  - rewrite len_app. lia.
+  - rewrite len_app. lia.
+  - unfold mode; cbn. destruct H5 as [(base & Hb & Hsb & Hu & Ht)|(D1 & D2 & D3)].
+    + left. exists base. rewrite app_assoc, !len_app in *. split; [lia|]. split.
+      { rewrite skipn_app_le by (unfold len in *; rewrite app_length; lia). rewrite <- Hsb. reflexivity. }
+      split; [exact Hu|].
+      assert (Hq : w32 (snd_una s + sbuf_n s) = len C + len W).
+      { assert (Hn : sbuf_n s = len C + len W - base).
+        { rewrite H3, Hsb. unfold len in *. rewrite skipn_length, app_length. lia. }
+        rewrite Hn. rewrite (w32_una_plus _ base _ Hu); unfold NW, M32 in *; lia. }
+      rewrite Hq. rewrite <- Hln.
+      apply tiles_qsl; auto; try lia; try (unfold NW, M32 in *; lia); try (intros; contradiction); try (unfold len; lia).
+    + right. destruct Hst as [->|(Hs & _)]; [|congruence].
+      assert (Ed : d = []) by (rewrite Hd; apply firstn_nil).
+      assert (El : ln = 0) by (rewrite Hln, Ed; reflexivity). rewrite Ed, El.
+      split; [exact D1|]. split; [rewrite D2; reflexivity|]. apply zero_qsl. exact D3.
+  - intros L. destruct (H6 L) as (-> & ->). split; [reflexivity|].
+    destruct Hst as [->|(_ & Hs)]; [|contradiction]. rewrite Hd. apply firstn_nil.
+  - intros p Hin. apply pkt_ok_ext. apply H7. exact Hin.
+Qed.
+
+Lemma pkt_ok_empty_stream C' W' p : pkt_ok [] [] p -> pkt_ok C' W' p.
+Proof.
+  intros H Hne. exfalso. destruct (H Hne) as (H1 & H2 & _). change (len ([] ++ [])) with 0 in H2.
+  destruct (pkt_payload p) as [|x l]; [congruence|]. unfold len in H2. cbn [length] in H2. lia.
+Qed.
+
+(* the connect message is queued on an empty stream *)
+Lemma queue_connect_spec s ev :
+  sinv [] [] s ev -> has_sent_fin (state s) = false -> state s <> LISTEN ->
+  wp queue_connect_message s ev (fun _ s' ev' => exists C', sinv C' [] s' ev' /\ state s' = state s).
+Proof.
+  intros HI Hnf Hnl. unfold queue_connect_message. wp_prims.
+  set (b := [0] ++ (if support_wnd_scale s then [3; 1; rwnd_scale s] else []) ++ (if support_fin_ack s then [254; 1; 0] else [])).
+  assert (Hb : len b <= 7) by (unfold b; destruct (support_wnd_scale s), (support_fin_ack s); cbn; lia).
+  eapply wp_bind_spec; [apply queue_result|]. cbv beta. intros ln s' ev' (d & -> & Hln & Hd & ->). wp_prims.
+  assert (Hlen : 0 <= ln <= len b).
+  { rewrite Hln, Hd. unfold len. rewrite firstn_length. lia. }
+  exists d. split; [|reflexivity].
+  destruct HI as [H1 H2 H3 H4 H5 H6 H7]. unfold sb_buffered. constructor; cbn; try assumption.
+  - unfold NW. lia.
+  - lia.
+  - rewrite len_app. lia.
+  - unfold mode; cbn. destruct H5 as [(base & Hbs & Hsb & Hu & Ht)|(D1 & _)]; [|congruence].
+    assert (E0 : base = 0) by (change (len ([] ++ [])) with 0 in Hbs; lia). rewrite E0 in Hsb, Ht, Hu.
+    change (skipn (Z.to_nat 0) ([] ++ [])) with (@nil Z) in Hsb. change (len ([] ++ [])) with 0 in Ht. change (len []) with 0 in Ht.
+    left. exists 0. rewrite app_nil_r. split; [lia|]. split; [rewrite Hsb; reflexivity|]. split; [exact Hu|].
+    assert (Hq : w32 (snd_una s + sbuf_n s) = 0).
+    { rewrite H3, Hsb. cbn. replace (snd_una s + 0) with (snd_una s) by lia. exact Hu. }
+    rewrite Hq. rewrite <- Hln. replace ln with (0 + ln) at 2 by lia.
+    apply tiles_qsl; try lia; try (unfold M32; lia); try (right; right; left; reflexivity); try (intros E; discriminate E).
+    eapply tiles_rebase; [|exact Ht]. lia.
+  - intros L; contradiction.
+  - intros p Hin. apply pkt_ok_empty_stream. apply H7. exact Hin.
+Qed.
+
+Lemma queue_fin_spec C W s ev :
+  sinv C W s ev -> wp queue_fin_message s ev (fun _ s' ev' => sinv C W s' ev' /\ state s' = state s).
+Proof.
+  intros HI. unfold queue_fin_message. wp_prims.
+  eapply wp_bind_spec; [apply (queue_data_spec C W [] FLAG_FIN s ev HI)|].
+  - right; left; reflexivity.
+  - discriminate.
+  - left; reflexivity.
+  - cbv beta. intros ln s' ev' (Hl & Hs & Hq). wp_prims. split; [|exact Hs].
+    cbn in Hl. assert (ln = 0) by lia. subst ln. cbn in Hq. rewrite app_nil_r in Hq. apply Hq. destruct HI; lia.
+Qed.
+
+Lemma queue_rst_spec C W s ev :
+  sinv C W s ev -> wp queue_rst_message s ev (fun _ s' ev' => sinv C W s' ev' /\ state s' = state s).
+Proof.
+  intros HI. unfold queue_rst_message. wp_prims.
+  eapply wp_bind_spec; [apply (queue_data_spec C W [] FLAG_RST s ev HI)|].
+  - right; right; right; reflexivity.
+  - discriminate.
+  - left; reflexivity.
+  - cbv beta. intros ln s' ev' (Hl & Hs & Hq). wp_prims. split; [|exact Hs].
+    cbn in Hl. assert (ln = 0) by lia. subst ln. cbn in Hq. rewrite app_nil_r in Hq. apply Hq. destruct HI; lia.
+Qed.
+
+(** ---- closedown ---- *)
+Lemma closedown_spec C W err local now s ev :
+  sinv C W s ev -> wp (closedown err local now) s ev (fun _ s' ev' => sinv C W s' ev').
+Proof.
+  intros HI. unfold closedown. wp_prims.
+  match goal with |- wp (bind ?m _) _ _ _ => set (pre := m) end.
+  assert (Hpre : wp pre s ev (fun _ s' ev' => sinv C W s' ev')).
+  { unfold pre. destruct (local && support_fin_ack s).
+    - eapply wp_bind_spec; [apply queue_rst_spec; exact HI|]. cbv beta. intros _ s1 ev1 (HI1 & _).
+      apply attempt_send_spec. exact HI1.
+    - destruct local; wp_prims; [|exact HI]. eapply sinv_frame; [exact HI|]. fr_triv. }
+  eapply wp_bind_spec; [exact Hpre|]. cbv beta. intros _ s1 ev1 HI1.
+  eapply wp_bind_fr; [apply closedown_states_frames|]. intros _ s2 ev2 F2.
+  eapply wp_conseq; [apply set_state_closed_frames|]. cbv beta. intros _ s3 ev3 F3.
+  eapply sinv_frame; [exact HI1|]. eapply fr_trans; eauto.
+Qed.
+
+(** ---- acknowledgements ---- *)
+Lemma ack_slist_tiles cl fuel : forall l base e nFree lg l' lg',
+  tiles cl base l e -> 0 <= nFree <= e - base -> 0 <= base -> e < M32 ->
+  ack_slist fuel l nFree lg = Some (l', lg') -> tiles cl (base + nFree) l' e.
+Proof.
+  induction fuel as [|f IH]; intros l base e nFree lg l' lg' Ht Hn Hb He H; cbn [ack_slist] in H; [discriminate|].
+  destruct (nFree <=? 0) eqn:E0.
+  - injection H as <- <-. replace (base + nFree) with base by lia. exact Ht.
+  - destruct l as [|d l]; [discriminate|]. cbn [tiles] in Ht. destruct Ht as (Hd & Ht).
+    pose proof (tiles_le _ _ _ _ Ht) as Hle. destruct Hd as (G1 & G2 & G3 & G4 & G5).
+    destruct (nFree <? ss_len d) eqn:E1.
+    + injection H as <- <-. cbn [tiles]. cbn [ss_len ss_seq ss_flags set]. split.
+      * unfold seg_ok; cbn [ss_len ss_seq ss_flags set].
+        assert (W1 : w32 (ss_seq d + nFree) = base + nFree) by (rewrite G1; unfold w32, M32 in *; apply Z.mod_small; lia).
+        rewrite W1. repeat split; auto; lia.
+      * replace (base + nFree + (ss_len d - nFree)) with (base + ss_len d) by lia. exact Ht.
+    + replace (base + nFree) with (base + ss_len d + (nFree - ss_len d)) by lia.
+      eapply IH; [exact Ht| | | |exact H]; lia.
+Qed.
+
+Lemma ack_slist_zero fuel l lg : ack_slist (S fuel) l 0 lg = Some (l, lg).
+Proof. reflexivity. Qed.
+
+Lemma skipn_all_len {A} (l : list A) : skipn (length l) l = [].
+Proof. apply skipn_all. Qed.
+
+Lemma sinv_ack_update C W s ev ack nAcked0 nAcked finack sl lg x y :
+  sinv C W s ev ->
+  nAcked0 = w32 (ack - snd_una s) ->
+  finack = ((nAcked0 =? sbuf_n s + 1) && has_sent_fin (state s)) ->
+  nAcked = (if finack then nAcked0 - 1 else nAcked0) ->
+  (nAcked <=? sbuf_n s) = true ->
+  ack_slist (S (length (slist s))) (slist s) nAcked (largest s) = Some (sl, lg) ->
+  sinv C W (s <| snd_wnd := x |> <| snd_una := ack |> <| rto_base := y |>
+              <| sbuf := skipn (Z.to_nat nAcked) (sbuf s) |> <| sbuf_n := sbuf_n s - nAcked |> <| slist := sl |> <| largest := lg |>) ev.
+Proof.
+  intros [H1 H2 H3 H4 H5 H6 H7] E0 Ef En Hle Hack.
+  assert (Hn0 : 0 <= nAcked0) by (rewrite E0; unfold w32, M32; apply Z.mod_pos_bound; lia).
+  assert (Hsn : 0 <= sbuf_n s) by (rewrite H3; unfold len; lia).
+  assert (Hn : 0 <= nAcked <= sbuf_n s).
+  { split; [|lia]. rewrite En. destruct finack; [|exact Hn0]. symmetry in Ef. apply andb_prop in Ef. lia. }
+  constructor; cbn; try assumption.
+  - rewrite H3. unfold len in *. rewrite skipn_length. lia.
+  - unfold mode; cbn. destruct H5 as [(base & Hb & Hsb & Hu & Ht)|(D1 & D2 & D3)].
+    + assert (Hbn : sbuf_n s = len (C ++ W) - base).
+      { rewrite H3, Hsb. unfold len in *. rewrite skipn_length. lia. }
+      assert (Ht' : tiles (len C) (base + nAcked) sl (len (C ++ W))).
+      { eapply ack_slist_tiles; [exact Ht| | | |exact Hack]; try lia. rewrite len_app; unfold NW, M32 in *; lia. }
+      destruct finack eqn:Efa.
+      * right. symmetry in Ef. apply andb_prop in Ef. destruct Ef as (Ef1 & Ef2).
+        assert (nAcked = sbuf_n s) by lia.
+        split; [exact Ef2|]. split.
+        { rewrite H, H3. unfold len. rewrite Nat2Z.id. apply skipn_all. }
+        replace (base + nAcked) with (len (C ++ W)) in Ht' by lia. eapply tiles_all_zero; exact Ht'.
+      * left. exists (base + nAcked). split; [lia|]. split.
+        { rewrite Hsb, skipn_skipn'. f_equal. lia. }
+        split; [|exact Ht'].
+        rewrite len_app in *. subst nAcked. rewrite E0 in *. unfold w32, M32, NW in *. lia.
+    + right. rewrite D2 in *. cbn [len length Z.of_nat] in H3.
+      assert (nAcked = 0) by lia. subst nAcked. rewrite H in *.
+      split; [exact D1|]. split; [reflexivity|].
+      rewrite ack_slist_zero in Hack. injection Hack as <- <-. exact D3.
+Qed.
+
+(** ---- process ---- *)
+Definition SInv (W : bytes) (s : sock) (ev : list event) : Prop := exists C, sinv C W s ev.
+
+Ltac use_spec L := eapply wp_bind_spec; [apply L|cbv beta].
+Ltac sinv_fr HI := eapply sinv_frame; [exact HI|]; fr_chain.
+
+Lemma process_spec W seg now s ev :
+  SInv W s ev -> wp (process seg now) s ev (fun _ s' ev' => SInv W s' ev').
+Proof.
+  intros (C & HI). unfold process. wp_prims.
+  destruct (negb (g_conv seg =? conv s)); [wp_prims; exists C; exact HI|]. wp_prims.
+  match goal with |- wp _ ?s1 _ _ => assert (HI1 : sinv C W s1 ev) by (sinv_fr HI); set (s1' := s1) in *; clearbody s1' end.
+  clear HI s. rename s1' into s, HI1 into HI.
+  destruct (st_eqb (state s) CLOSED || _).
+  { apply wp_bind_when; intros _; wp_prims; [|exists C; exact HI].
+    use_spec (closedown_spec C W 0 true now s ev HI). intros _ s1 ev1 HI1. wp_prims. exists C; exact HI1. }
+  destruct (has_flag (g_flags seg) FLAG_RST).
+  { use_spec (closedown_spec C W ECONNRESET false now s ev HI). intros _ s1 ev1 HI1. wp_prims. exists C; exact HI1. }
+  (* control segment *)
+  apply (wp_bind_spec _ _ _ _ (fun _ s' ev' => SInv W s' ev')).
+  { destruct (has_flag (g_flags seg) FLAG_CTL); [|wp_prims; exists C; exact HI].
+    destruct (g_data seg) as [|c0 opts]; [wp_prims; exists C; exact HI|].
+    destruct (c0 =? 0); [|wp_prims; exists C; exact HI].
+    eapply wp_bind_fr; [apply parse_options_frames|]. intros _ s1 ev1 F1. wp_prims.
+    assert (HI1 : sinv C W s1 ev1) by (sinv_fr HI).
+    apply (wp_bind_spec _ _ _ _ (fun _ s' ev' => SInv W s' ev')); [|cbv beta; intros _ s2 ev2 H2; wp_prims; exact H2].
+    destruct (state s1) eqn:Est; try (wp_prims; exists C; exact HI1).
+    - (* LISTEN: answer with our own connect message *)
+      destruct (si_listen _ _ _ _ HI1 Est) as (-> & ->).
+      eapply wp_bind_spec.
+      { unfold set_state. wp_prims. rewrite Est. cbn [st_eqb st_num Z.eqb transition_ok]. wp_prims.
+        instantiate (1 := fun _ s' ev' => sinv [] [] s' ev' /\ state s' = SYN_RECEIVED).
+        cbv beta. split; [|reflexivity].
+        destruct HI1 as [H1 H2 H3 H4 H5 H6 H7]. constructor; cbn; try assumption.
+        - destruct H5 as [N|(D & _)]; [left; exact N|rewrite Est in D; discriminate D].
+        - intros E; discriminate E. }
+      cbv beta. intros _ s2 ev2 (HI2 & St2).
+      eapply wp_conseq; [apply queue_connect_spec; [exact HI2|rewrite St2; reflexivity|rewrite St2; discriminate]|].
+      cbv beta. intros _ s3 ev3 (C' & HI3 & _). exists C'. exact HI3.
+    - eapply wp_conseq; [apply set_state_established_frames|]. cbv beta. intros _ s2 ev2 F2. exists C. sinv_fr HI1. }
+  cbv beta. clear C HI. intros ctl s1 ev1 (C & HI). clear s ev. rename s1 into s, ev1 into ev.
+  destruct ctl as [b|]; [wp_prims; exists C; exact HI|]. wp_prims.
+  eapply wp_bind_fr; [intros s' ev'; apply wp_when; intros _; wp_prims; fr_triv|]. intros _ s1 ev1 F1.
+  assert (HI1 : sinv C W s1 ev1) by (sinv_fr HI). clear HI F1 s ev. rename s1 into s, ev1 into ev, HI1 into HI.
+  wp_prims.
+  (* acknowledgement processing *)
+  apply (wp_bind_spec _ _ _ _ (fun _ s' ev' => sinv C W s' ev')).
+  { destruct (LARGER (g_ack seg) (snd_una s) && SMALLER_OR_EQUAL (g_ack seg) (snd_nxt s)).
+    - eapply wp_bind_fr.
+      { intros s' ev'. destruct (negb (g_tsecr seg =? 0)); [|wp_prims; fr_triv].
+        destruct (time_diff now (g_tsecr seg) >=? 0); wp_prims; [|fr_triv]. destruct (rx_srtt s' =? 0); fr_triv. }
+      intros rttok s1 ev1 F1. assert (HI1 : sinv C W s1 ev1) by (sinv_fr HI).
+      destruct (negb rttok); [wp_prims; exact HI1|]. wp_prims.
+      destruct (ack_slist _ _ _ _) as [[sl lg]|] eqn:Hack; [|apply wp_fault]. wp_prims.
+      match goal with |- wp _ ?s2 _ _ => assert (HI2 : sinv C W s2 ev1) end.
+      { eapply sinv_ack_update; [exact HI1|reflexivity|reflexivity|reflexivity|eassumption|exact Hack]. }
+      match goal with |- wp _ ?s2 _ _ => set (s2' := s2) in *; clearbody s2' end.
+      destruct (dup_acks s2' >=? 3).
+      + destruct (LARGER_OR_EQUAL _ _); [wp_prims; sinv_fr HI2|].
+        destruct (_ && _); [wp_prims; exact HI2|].
+        apply (wp_bind_spec _ _ _ _ (fun _ s' ev' => sinv C W s' ev')).
+        { destruct (slist s2'); [apply wp_fault|]. eapply wp_conseq; [apply transmit_spec; exact HI2|]. cbv beta. tauto. }
+        cbv beta. intros st s3 ev3 HI3. destruct (negb (st =? 0)).
+        * use_spec (closedown_spec C W st true now s3 ev3 HI3). intros _ s4 ev4 HI4. wp_prims. exact HI4.
+        * wp_prims. sinv_fr HI3.
+      + wp_prims. sinv_fr HI2.
+    - destruct (g_ack seg =? snd_una s); [|wp_prims; exact HI]. wp_prims.
+      match goal with |- wp _ ?s2 _ _ => assert (HI2 : sinv C W s2 ev) by (sinv_fr HI); set (s2' := s2) in *; clearbody s2' end.
+      destruct (len (g_data seg) >? 0); [wp_prims; exact HI2|].
+      destruct (negb (snd_una s2' =? snd_nxt s2')); [|wp_prims; sinv_fr HI2]. wp_prims.
+      match goal with |- wp _ ?s3 _ _ => assert (HI3 : sinv C W s3 ev) by (sinv_fr HI2); set (s3' := s3) in *; clearbody s3' end.
+      destruct (dup_acks s3' =? 3).
+      + destruct (_ || _); [|wp_prims; exact HI3].
+        apply (wp_bind_spec _ _ _ _ (fun _ s' ev' => sinv C W s' ev')).
+        { destruct (slist s3'); [apply wp_fault|]. eapply wp_conseq; [apply transmit_spec; exact HI3|]. cbv beta. tauto. }
+        cbv beta. intros st s4 ev4 HI4. destruct (negb (st =? 0)).
+        * use_spec (closedown_spec C W st true now s4 ev4 HI4). intros _ s5 ev5 HI5. wp_prims. exact HI5.
+        * wp_prims. sinv_fr HI4.
+      + destruct (dup_acks s3' >? 3); [|wp_prims; exact HI3].
+        apply wp_bind_when; intros _; wp_prims; [sinv_fr HI3|exact HI3]. }
+  cbv beta. intros [cont is_fin_ack] s1 ev1 HI1. clear HI s ev. rename s1 into s, ev1 into ev, HI1 into HI.
+  destruct (negb cont); [wp_prims; exists C; exact HI|]. wp_prims.
+  eapply wp_bind_fr; [intros s' ev'; apply wp_when; intros _; [apply set_state_established_frames|apply fr_refl]|].
+  intros _ s1 ev1 F1. wp_prims.
+  (* FIN handling: state changes only *)
+  eapply wp_bind_fr.
+  { intros s' ev'. destruct (support_fin_ack _); [|wp_prims; apply fr_refl].
+    eapply wp_bind_fr; [intros s'' ev''; apply wp_when; intros _; wp_prims; fr_triv|]. intros _ s2 ev2 F2.
+    destruct (_ && _); [wp_prims; fr_chain|]. wp_prims.
+    eapply wp_bind_fr; [|intros _ s3 ev3 F3; wp_prims; fr_chain].
+    intros s'' ev''.
+    destruct (state s2); try (wp_prims; apply fr_refl);
+      repeat match goal with |- wp (if ?b then _ else _) _ _ _ => destruct b end;
+      try (apply wp_when; intros _; [|apply fr_refl]);
+      first [apply set_state_frames; discriminate | apply set_state_closed_frames]. }
+  intros finr s2 ev2 F2. assert (HI2 : sinv C W s2 ev2) by (sinv_fr HI). clear HI F1 F2 s ev s1 ev1.
+  rename s2 into s, ev2 into ev, HI2 into HI.
+  destruct finr as [received_fin|]; [|wp_prims; exists C; exact HI]. wp_prims.
+  eapply wp_bind_fr; [intros s' ev'; apply wp_when; intros _; wp_prims; fr_triv|]. intros _ s1 ev1 F1. wp_prims.
+  match goal with |- context [let '(seq1, data1) := ?e in _] => destruct e as [seq1 data1] end.
+  (* storing the payload: receive side only *)
+  apply (wp_bind_spec _ _ _ _ (fun _ s' ev' => fr s1 ev1 s' ev')).
+  { destruct (len _ >? 0); [|wp_prims; apply fr_refl].
+    destruct (_ || _); [apply wp_bind_when; intros _; wp_prims; fr_triv|].
+    destruct (rb_write_offset _ _ _) as [rb1 res]. wp_prims.
+    destruct (seq1 =? rcv_nxt s1).
+    - destruct (rb_commit rb1 _); [|apply wp_fault]. wp_prims.
+      eapply wp_bind_fr; [apply recover_rlist_frames|]. intros sf s3 ev3 F3. wp_prims.
+      eapply fr_trans; [|exact F3]. fr_triv.
+    - wp_prims. fr_triv. }
+  cbv beta. intros [sflags bNewData] s2 ev2 F2.
+  eapply wp_bind_fr; [intros s' ev'; apply wp_when; intros _; wp_prims; fr_triv|]. intros _ s3 ev3 F3.
+  assert (HI3 : sinv C W s3 ev3) by (sinv_fr HI).
+  use_spec (attempt_send_spec C W sflags now s3 ev3 HI3). intros _ s4 ev4 HI4. wp_prims.
+  apply wp_bind_when; intros _; wp_prims; exists C; [sinv_fr HI4|exact HI4].
+Qed.
+
+(** ---- the public entry points ---- *)
+Lemma SInv_frame W s ev s' ev' : SInv W s ev -> fr s ev s' ev' -> SInv W s' ev'.
+Proof. intros (C & HI) F. exists C. eapply sinv_frame; eauto. Qed.
+
+Lemma notify_packet_spec W p now s ev :
+  SInv W s ev -> wp (notify_packet p now) s ev (fun _ s' ev' => SInv W s' ev').
+Proof.
+  intros HI. unfold notify_packet. destruct (len p >? MAX_PACKET); [wp_prims; eapply SInv_frame; [exact HI|fr_triv]|].
+  destruct (parse_packet p); [apply process_spec; exact HI|wp_prims; eapply SInv_frame; [exact HI|fr_triv]].
+Qed.
+
+Lemma connect_spec W now s ev :
+  SInv W s ev -> wp (connect now) s ev (fun _ s' ev' => SInv W s' ev').
+Proof.
+  intros (C & HI). unfold connect. wp_prims.
+  destruct (negb (st_eqb (state s) LISTEN)) eqn:E; [wp_prims; exists C; sinv_fr HI|].
+  assert (Est : state s = LISTEN) by (apply st_eqb_eq; destruct (st_eqb (state s) LISTEN); [reflexivity|discriminate]).
+  destruct (si_listen _ _ _ _ HI Est) as (-> & ->).
+  eapply wp_bind_spec.
+  { unfold set_state. wp_prims. rewrite Est. cbn [st_eqb st_num Z.eqb transition_ok]. wp_prims.
+    instantiate (1 := fun _ s' ev' => sinv [] [] s' ev' /\ state s' = SYN_SENT).
+    cbv beta. split; [|reflexivity].
+    destruct HI as [H1 H2 H3 H4 H5 H6 H7]. constructor; cbn; try assumption.
+    - destruct H5 as [N|(D & _)]; [left; exact N|rewrite Est in D; discriminate D].
+    - intros E1; discriminate E1. }
+  cbv beta. intros _ s2 ev2 (HI2 & St2).
+  eapply wp_bind_spec; [apply queue_connect_spec; [exact HI2|rewrite St2; reflexivity|rewrite St2; discriminate]|].
+  cbv beta. intros _ s3 ev3 (C' & HI3 & _).
+  use_spec (attempt_send_spec C' [] sfNone now s3 ev3 HI3). intros _ s4 ev4 HI4. wp_prims. exists C'. exact HI4.
+Qed.
+
+Lemma notify_mtu_frames mtu : frames (notify_mtu mtu).
+Proof.
+  intros s ev. unfold notify_mtu. wp_prims. apply wp_when; intros _; [|fr_triv].
+  eapply wp_conseq; [apply adjustMTU_frames|]. cbv beta. intros _ s1 ev1 F. eapply fr_trans; [|exact F]. fr_triv.
+Qed.
+
+Lemma set_rcv_buf_frames n : frames (set_rcv_buf n).
+Proof. intros s ev. unfold set_rcv_buf. wp_prims. destruct (st_eqb _ _); [apply resize_receive_buffer_frames|wp_prims; apply fr_refl]. Qed.
+Lemma set_snd_buf_frames n : frames (set_snd_buf n).
+Proof. intros s ev. unfold set_snd_buf. wp_prims. destruct (st_eqb _ _); wp_prims; [fr_triv|apply fr_refl]. Qed.
+
+Lemma get_next_clock_spec W timeout now s ev :
+  SInv W s ev -> wp (get_next_clock timeout now) s ev (fun _ s' ev' => SInv W s' ev').
+Proof.
+  intros (C & HI). unfold get_next_clock. wp_prims.
+  assert (Hcd : forall err, wp (closedown err false now;;; ret (@None Z)) s ev (fun _ s' ev' => SInv W s' ev')).
+  { intros err. use_spec (closedown_spec C W err false now s ev HI). intros _ s1 ev1 HI1. wp_prims. exists C; exact HI1. }
+  destruct (shutdown s); try apply Hcd; cbn [andb].
+  - repeat match goal with |- wp (if ?b then _ else _) _ _ _ => destruct b end; wp_prims; exists C; exact HI.
+  - repeat match goal with |- wp (if ?b then _ else _) _ _ _ => destruct b end; try apply Hcd; wp_prims; exists C; exact HI.
+Qed.
+
+Lemma notify_clock_spec W now s ev :
+  SInv W s ev -> wp (notify_clock now) s ev (fun _ s' ev' => SInv W s' ev').
+Proof.
+  intros (C & HI). unfold notify_clock. wp_prims.
+  destruct (st_eqb (state s) CLOSED); [wp_prims; exists C; exact HI|].
+  eapply wp_bind_fr; [intros s' ev'; apply wp_when; intros _; [apply set_state_closed_frames|apply fr_refl]|].
+  intros _ s1 ev1 F1. assert (HI1 : sinv C W s1 ev1) by (sinv_fr HI). clear HI F1 s ev. wp_prims.
+  apply (wp_bind_spec _ _ _ _ (fun _ s' ev' => sinv C W s' ev')).
+  { apply wp_when; intros _; [|exact HI1].
+    use_spec (queue_fin_spec C W s1 ev1 HI1). intros _ s2 ev2 (HI2 & _). apply attempt_send_spec. exact HI2. }
+  cbv beta. intros _ s ev HI. clear HI1 s1 ev1. wp_prims.
+  apply (wp_bind_spec _ _ _ _ (fun _ s' ev' => sinv C W s' ev')).
+  { destruct (_ && _); [|wp_prims; exact HI]. destruct (slist s); [apply wp_fault|].
+    use_spec (transmit_spec C W 0%nat now s ev HI). intros st s1 ev1 (HI1 & _).
+    destruct (negb (st =? 0)).
+    - use_spec (closedown_spec C W st true now s1 ev1 HI1). intros _ s2 ev2 HI2. wp_prims. exact HI2.
+    - wp_prims. eapply sinv_frame; [exact HI1|]. destruct (dup_acks s1 >=? 3); fr_triv. }
+  cbv beta. intros r1 s1 ev1 HI1. clear HI s ev. destruct (negb r1); [wp_prims; exists C; exact HI1|]. wp_prims.
+  apply (wp_bind_spec _ _ _ _ (fun _ s' ev' => sinv C W s' ev')).
+  { destruct (_ && _); [|wp_prims; exact HI1]. destruct (time_diff now (lastrecv s1) >=? 15000).
+    - use_spec (closedown_spec C W ECONNABORTED true now s1 ev1 HI1). intros _ s2 ev2 HI2. wp_prims. exact HI2.
+    - use_spec (ack_packet_spec C W (w32 (snd_nxt s1 - 1)) now s1 ev1 HI1). intros _ s2 ev2 (HI2 & _). wp_prims. sinv_fr HI2. }
+  cbv beta. intros r2 s2 ev2 HI2. clear HI1 s1 ev1. destruct (negb r2); [wp_prims; exists C; exact HI2|]. wp_prims.
+  apply wp_when; intros _; [|exists C; exact HI2].
+  use_spec (ack_packet_spec C W (snd_nxt s2) now s2 ev2 HI2). intros _ s3 ev3 (HI3 & _). wp_prims. exists C; exact HI3.
+Qed.
+
+Lemma recv_spec W n now s ev :
+  SInv W s ev -> wp (recv n now) s ev (fun _ s' ev' => SInv W s' ev').
+Proof.
+  intros (C & HI). unfold recv. wp_prims.
+  repeat match goal with |- wp (if ?b then _ else _) _ _ _ => destruct b; [wp_prims; exists C; first [exact HI|sinv_fr HI]|] end.
+  wp_prims.
+  match goal with |- wp _ ?s2 _ _ => assert (HI2 : sinv C W s2 ev) by (sinv_fr HI); set (s2' := s2) in *; clearbody s2' end.
+  destruct (_ && _); [wp_prims; exists C; sinv_fr HI2|].
+  apply (wp_bind_spec _ _ _ _ (fun _ s' ev' => sinv C W s' ev')); [|cbv beta; intros _ s3 ev3 HI3; wp_prims; exists C; exact HI3].
+  destruct (_ >=? _); [|wp_prims; exact HI2]. wp_prims.
+  apply wp_when; intros _; [|sinv_fr HI2].
+  apply attempt_send_spec. sinv_fr HI2.
+Qed.
+
+Lemma wp_true {A} (m : M A) s ev : wp m s ev (fun _ _ _ => True).
+Proof. unfold wp. destruct (m s ev) as [[[a s'] ev']|]; exact I. Qed.
+
+Lemma send_spec W data now s ev :
+  SInv W s ev -> wp (send data now) s ev (fun w s' ev' => len W + len (accepted w data) < NW - 8 -> SInv (W ++ accepted w data) s' ev').
+Proof.
+  intros (C & HI). unfold send. wp_prims.
+  destruct (negb (st_eqb (state s) ESTABLISHED)) eqn:E.
+  { wp_prims. intros _. cbn. rewrite app_nil_r. exists C. sinv_fr HI. }
+  assert (Est : state s = ESTABLISHED) by (apply st_eqb_eq; destruct (st_eqb (state s) ESTABLISHED); [reflexivity|discriminate]).
+  destruct (sb_remaining s =? 0). { wp_prims. intros _. cbn. rewrite app_nil_r. exists C. sinv_fr HI. }
+  eapply wp_bind_spec.
+  { apply (queue_data_spec C W data 0 s ev HI); [left; reflexivity|discriminate|right; rewrite Est; split; [reflexivity|discriminate]]. }
+  cbv beta. intros ln s1 ev1 (Hln & _ & Hq).
+  assert (Hacc : accepted ln data = firstn (Z.to_nat ln) data).
+  { unfold accepted. destruct (ln >? 0) eqn:E0; [reflexivity|]. replace ln with 0 by lia. reflexivity. }
+  assert (Hal : len (accepted ln data) = ln).
+  { rewrite Hacc. unfold len in *. rewrite firstn_length. lia. }
+  destruct (Z_lt_dec (len W + ln) (NW - 8)) as [Hs|Hb].
+  - assert (HI1 : sinv C (W ++ firstn (Z.to_nat ln) data) s1 ev1) by (apply Hq; pose proof (si_cl _ _ _ _ HI); lia).
+    use_spec (attempt_send_spec _ _ sfNone now s1 ev1 HI1). intros _ s2 ev2 HI2.
+    apply wp_bind_when; intros _; wp_prims; intros _; rewrite Hacc; eexists; [sinv_fr HI2|exact HI2].
+  - eapply wp_bind_spec; [apply wp_true|]. cbv beta. intros _ s2 ev2 _.
+    apply wp_bind_when; intros _; wp_prims; intros Hc; rewrite Hal in Hc; lia.
+Qed.
+
+Lemma shutdown_sock_spec W how now s ev :
+  SInv W s ev -> wp (shutdown_sock how now) s ev (fun _ s' ev' => SInv W s' ev').
+Proof.
+  intros (C & HI). unfold shutdown_sock. wp_prims.
+  destruct (negb (support_fin_ack s)). { apply wp_when; intros _; wp_prims; exists C; [sinv_fr HI|exact HI]. }
+  eapply wp_bind_fr; [intros s' ev'; apply wp_when; intros _; wp_prims; fr_triv|]. intros _ s1 ev1 F1.
+  assert (HI1 : sinv C W s1 ev1) by (sinv_fr HI). clear HI F1 s ev.
+  destruct (how =? 0); [wp_prims; exists C; exact HI1|]. wp_prims.
+  assert (Hfin : forall n, n <> LISTEN -> n <> SYN_SENT ->
+    wp (queue_fin_message;;; attempt_send sfFin now;;; s <- get;; when (negb (st_eqb (state s) CLOSED)) (set_state n)) s1 ev1
+       (fun _ s' ev' => SInv W s' ev')).
+  { intros n N1 N2. use_spec (queue_fin_spec C W s1 ev1 HI1). intros _ s2 ev2 (HI2 & _).
+    use_spec (attempt_send_spec C W sfFin now s2 ev2 HI2). intros _ s3 ev3 HI3. wp_prims.
+    apply wp_when; intros _; [|exists C; exact HI3].
+    eapply wp_conseq; [apply set_state_frames; assumption|]. cbv beta. intros _ s4 ev4 F4. exists C. sinv_fr HI3. }
+  destruct (state s1); try (wp_prims; exists C; exact HI1); try (apply Hfin; discriminate).
+  - eapply wp_conseq; [apply set_state_closed_frames|]. cbv beta. intros _ s4 ev4 F4. exists C. sinv_fr HI1.
+  - eapply wp_conseq; [apply set_state_closed_frames|]. cbv beta. intros _ s4 ev4 F4. exists C. sinv_fr HI1.
+  - destruct (rb_buffered s1 >? 0); [|apply Hfin; discriminate].
+    eapply wp_conseq; [apply (closedown_spec C W _ _ _ _ _ HI1)|]. cbv beta. intros _ s2 ev2 HI2. exists C; exact HI2.
+  - destruct (rb_buffered s1 >? 0); [|apply Hfin; discriminate].
+    eapply wp_conseq; [apply (closedown_spec C W _ _ _ _ _ HI1)|]. cbv beta. intros _ s2 ev2 HI2. exists C; exact HI2.
+Qed.
+
+Lemma close_sock_spec W force now s ev :
+  SInv W s ev -> wp (close_sock force now) s ev (fun _ s' ev' => SInv W s' ev').
+Proof.
+  intros HI. unfold close_sock. wp_prims. destruct (_ && _); [|apply shutdown_sock_spec; exact HI].
+  destruct HI as (C & HI). eapply wp_conseq; [apply (closedown_spec C W _ _ _ _ _ HI)|]. cbv beta. intros _ s2 ev2 HI2. exists C; exact HI2.
+Qed.
+
+(** ---- all sequences of operations ---- *)
+Definition init_ok (s : sock) : Prop :=
+  state s = LISTEN /\ slist s = [] /\ sbuf s = [] /\ sbuf_n s = 0 /\ snd_una s = 0 /\ 0 <= mss s.
+
+Lemma init_SInv s : init_ok s -> SInv [] s [].
+Proof.
+  intros (H1 & H2 & H3 & H4 & H5 & H6). exists []. constructor; try (cbn; unfold NW; lia); try assumption.
+  - rewrite H3, H4. reflexivity.
+  - left. exists 0. rewrite H2, H3, H5. cbn. repeat split; try lia; reflexivity.
+  - auto.
+  - intros p [].
+Qed.
+
+Lemma sock_init_ok cv : init_ok (sock_init cv).
+Proof. unfold init_ok, sock_init; cbn. repeat split; lia. Qed.
+
+Lemma step_SInv t o t' :
+  SInv (t_written t) (t_sock t) (t_ev t) -> step t o = Ok t' -> len (t_written t') < NW - 8 ->
+  SInv (t_written t') (t_sock t') (t_ev t').
+Proof.
+  intros HI Hs Hb. unfold step, upd_trace in Hs.
+  destruct o;
+  match type of Hs with match ?m ?s ?ev with _ => _ end = _ =>
+    destruct (m s ev) as [[[a s'] ev']|] eqn:E; [|discriminate Hs] end;
+  injection Hs as <-; cbn [t_written t_sock t_ev] in *; rewrite ?app_nil_r in *.
+  - exact (wp_ok _ _ _ _ _ _ _ (connect_spec _ _ _ _ HI) E).
+  - apply (wp_ok _ _ _ _ _ _ _ (send_spec _ _ _ _ _ HI) E). rewrite len_app in Hb. exact Hb.
+  - exact (wp_ok _ _ _ _ _ _ _ (recv_spec _ _ _ _ _ HI) E).
+  - exact (wp_ok _ _ _ _ _ _ _ (notify_packet_spec _ _ _ _ _ HI) E).
+  - exact (wp_ok _ _ _ _ _ _ _ (notify_clock_spec _ _ _ _ HI) E).
+  - exact (wp_ok _ _ _ _ _ _ _ (get_next_clock_spec _ _ _ _ _ HI) E).
+  - eapply SInv_frame; [exact HI|]. exact (wp_ok _ _ _ _ _ _ _ (notify_mtu_frames _ _ _) E).
+  - exact (wp_ok _ _ _ _ _ _ _ (shutdown_sock_spec _ _ _ _ _ HI) E).
+  - exact (wp_ok _ _ _ _ _ _ _ (close_sock_spec _ _ _ _ _ HI) E).
+  - eapply SInv_frame; [exact HI|]. exact (wp_ok _ _ _ _ _ _ _ (set_rcv_buf_frames _ _ _) E).
+  - eapply SInv_frame; [exact HI|]. exact (wp_ok _ _ _ _ _ _ _ (set_snd_buf_frames _ _ _) E).
+Qed.
+
+Lemma run_SInv ops : forall t t',
+  SInv (t_written t) (t_sock t) (t_ev t) -> run t ops = Ok t' -> len (t_written t') < NW - 8 ->
+  SInv (t_written t') (t_sock t') (t_ev t').
+Proof.
+  induction ops as [|o r IH]; intros t t' HI H Hb; cbn [run] in H.
+  - injection H as <-. exact HI.
+  - destruct (step t o) as [t1|] eqn:E; [|discriminate]. apply (IH t1 t'); [|exact H|exact Hb].
+    eapply step_SInv; [exact HI|exact E|]. destruct (run_written _ _ _ H) as (x & Hx).
+    rewrite Hx, len_app in Hb. unfold len in *. lia.
+Qed.
+
+Lemma sub_app_r (C W : bytes) q n : len C <= q -> sub (C ++ W) q n = sub W (q - len C) n.
+Proof.
+  intros H. unfold sub, len in *. f_equal. rewrite skipn_app. rewrite skipn_all2 by lia. cbn [app]. f_equal. lia.
+Qed.
+
+Definition data_packet (p : bytes) : Prop := pkt_payload p <> [] /\ pkt_ctl p = false.
+
+(** SENDER HONESTY.  From any initial (LISTEN, empty) socket, after ANY sequence of operations that the model runs without Fault,
+    and as long as fewer than 2^31 - 8 bytes were accepted by [send] (no sequence-number wrap): there is an offset [c] (the length of
+    the connect message, at most 7) such that every data packet ever emitted carries exactly the bytes of the accepted stream
+    [t_written] at position [seq - c]. *)
+Theorem sender_honesty s0 ops t :
+  init_ok s0 -> run (start s0) ops = Ok t -> len (t_written t) < NW - 8 ->
+  exists c, 0 <= c <= 7 /\
+    forall p, In (EvPacket p) (t_ev t) -> data_packet p ->
+      c <= pkt_seq p /\ pkt_seq p - c + len (pkt_payload p) <= len (t_written t) /\
+      pkt_payload p = sub (t_written t) (pkt_seq p - c) (len (pkt_payload p)).
+Proof.
+  intros Hi Hr Hb.
+  assert (HI : SInv (t_written t) (t_sock t) (t_ev t)) by (apply (run_SInv ops (start s0) t); [apply init_SInv; exact Hi|exact Hr|exact Hb]).
+  destruct HI as (C & HI). exists (len C). split; [split; [unfold len; lia|apply HI]|].
+  intros p Hin (Hne & Hctl). destruct (si_ev _ _ _ _ HI p Hin Hne) as (H1 & H2 & H3 & H4).
+  rewrite Hctl in H4. rewrite len_app in H2. split; [exact H4|]. split; [lia|].
+  rewrite H3 at 1. apply sub_app_r. exact H4.
 Qed.
